@@ -15,6 +15,15 @@ Definition src_opt_eqb (a b : option N) : bool :=
 Record src_aut := { src_St : Type; src_start : src_St; src_is_match : src_St -> bool; src_can_match : src_St -> bool;
                     src_will_always_match : src_St -> bool; src_accept : src_St -> N -> src_St }.
 Definition is_bytes (l : list N) : bool := forallb (fun b => b <? 256) l.
+(* `while x.len() >= K { ...; x = &x[k..] }` (k >= 1): at most `length x` iterations *)
+Fixpoint src_while {S} (fuel : nat) (c : S -> bool) (f : S -> S) (s : S) : S :=
+  match fuel with O => s | S k => if c s then src_while k c f (f s) else s end.
+Fixpoint src_while_res {S} (fuel : nat) (c : S -> bool) (f : S -> res S) (s : S) : res S :=
+  match fuel with O => Ok s | S k => if c s then (do s' <- f s; src_while_res k c f s') else Ok s end.
+(* uN::from_le_bytes of exactly N/8 bytes (elements are bytes) *)
+Fixpoint le_lor (l : list N) : N := match l with [] => 0 | b :: r => N.lor b (N.shiftl (le_lor r) 8) end.
+(* little-endian value, arithmetically *)
+Fixpoint le_val (l : list N) : N := match l with [] => 0 | b :: r => b + 256 * le_val r end.
 
 (* ---------- finite domains ---------- *)
 Definition bytes256 : list N := map N.of_nat (seq 0 256).
@@ -154,7 +163,6 @@ Proof.
   rewrite <- N.lxor_lor by assumption. symmetry. now apply N.add_nocarry_lxor.
 Qed.
 (* `n = n | (b as u64) << (8 * i)` over an enumerated byte list = little-endian value *)
-Fixpoint le_val (l : list N) : N := match l with [] => 0 | b :: r => b + 256 * le_val r end.
 Lemma fold_lor_le : forall l j acc, is_bytes l = true -> acc < 2 ^ (8 * N.of_nat j) ->
   fold_left (fun n (e : N * N) => N.lor n (N.shiftl (snd e) (8 * fst e))) (enum_from j l) acc
   = acc + 2 ^ (8 * N.of_nat j) * le_val l.
